@@ -110,6 +110,31 @@ func c16Copies(w *core.W, j int) {
 			}
 			w.Count("msg_copies", 1)
 		}
+		// CopyTo into a message that started out as a shallow copy of the source (a pooled Msg that was
+		// assigned with *dst = *src earlier): the source stays as it was and nothing is shared afterwards
+		{
+			src, _ := buildMsgAny(m)
+			src.Answer = append(make([]dns.RR, 0, len(src.Answer)+len(src.Ns)+len(src.Extra)+8), src.Answer...)
+			snap := graph.Clone(src).(*dns.Msg)
+			rel := new(dns.Msg)
+			*rel = *src
+			if !w.Guard("Msg.CopyTo(related destination)", wit, func() { src.CopyTo(rel) }) {
+				w.Count("msg_copies", 1)
+				if d := bridge.Diff(snap, src); d != "" {
+					w.Violation("C16/msg-copyto-changes-source", "CopyTo into a destination that shared the source's slices changed the source at "+d, wit)
+				}
+				if x, y, ok := graph.Overlap(graph.Mutable(src), graph.Mutable(rel)); ok {
+					w.Violation("C16/msg-copyto-alias/related/"+normPath(x.Path), fmt.Sprintf("after CopyTo source and destination share memory: original%s and copy%s", x.Path, y.Path), wit)
+				}
+				// pointer identity of the records themselves
+				for i := range src.Answer {
+					if i < len(rel.Answer) && src.Answer[i] == rel.Answer[i] {
+						w.Violation("C16/msg-copyto-alias/related/record-pointers", "source and destination hold the same record values after CopyTo", wit)
+						break
+					}
+				}
+			}
+		}
 		// CopyTo into a used message
 		dst := &dns.Msg{Answer: make([]dns.RR, 0, 64)}
 		if !w.Guard("Msg.CopyTo", wit, func() { built.CopyTo(dst) }) {
